@@ -31,7 +31,7 @@ func genC09(cfg Config, emit Emit) error {
 	}
 	sizes := []int{0, 1, 2, 3, 5, 8, 13, 21, 34, 64}
 	o := genOpts{maxDepth: 3, sessions: true, sessionPct: 20, caveats: true, caveatPct: 20,
-		kinds: []string{"none", "none", "wrongkey", "expired", "resource", "revoke", "decoys", "missing"}}
+		kinds: []string{"none", "none", "wrongkey", "expired", "resource", "revoke", "decoys", "missing", "missing"}}
 	i := 0
 	o.rsaServicePct = 30
 	genWorlds(cfg, n, o, func(w *AWorld, class string) {
